@@ -40,6 +40,12 @@ func Load(patterns []string, options ...func(c *packages.Config)) (*Universe, er
 		opt(c)
 	}
 
+	// an option may bring the caller's own file set: the loaded syntax is positioned in it
+	if c.Fset == nil {
+		c.Fset = fset
+	}
+	fset = c.Fset
+
 	pkgs, err := packages.Load(c, patterns...)
 	if err != nil {
 		return nil, err
